@@ -36,7 +36,28 @@ package util
 // an allow-list entry matches an address: CIDR entries by containment, plain entries by equality
 //@ pure entryMatches(e IPInfo, ip net.IP) bool = ite(e.isIPNet, netContains(e.ipNet.IP, e.ipNet.Mask, ip), ipEqual(e.ip, ip))
 
-//@ property C35: (*IPInfo).Match
+// parsing of one configured entry: net.ParseCIDR / net.ParseIP as uninterpreted functions of the text (trusted standard library)
+//@ pure cidrOK(v string) bool
+//@ pure cidrIP(v string) net.IP
+//@ pure cidrNet(v string) *net.IPNet
+//@ pure ipOf(v string) net.IP
+//@ trusted net.ParseCIDR
+//@   params v
+//@   pure-call
+//@   ensures (ret2 == nil) <==> cidrOK(v)
+//@   ensures ret2 == nil ==> ret0 == cidrIP(v) && ret1 == cidrNet(v) && ret1 != nil
+//@ trusted net.ParseIP
+//@   params v
+//@   pure-call
+//@   ensures ret0 == ipOf(v)
+// the entry a text denotes: a block when it parses as CIDR, else an address when it parses as one, else nothing
+//@ pure entryOK(v string) bool = cidrOK(v) || ipOf(v) != nil
+//@ property C35: (*IPInfo).Match, ParseIPInfo
+//@ func ParseIPInfo
+//@   assigns \nothing
+//@   ensures (ret1 == nil) <==> entryOK(v)
+//@   ensures cidrOK(v) ==> ret0.isIPNet && ret0.ipNet.IP == cidrNet(v).IP && ret0.ipNet.Mask == cidrNet(v).Mask && ret0.ip == cidrIP(v) && ret0.info == v
+//@   ensures !cidrOK(v) && ipOf(v) != nil ==> !ret0.isIPNet && ret0.ip == ipOf(v) && ret0.info == v
 //@ func (*IPInfo).Match
 //@   requires t != nil
 //@   assigns \nothing
